@@ -24,5 +24,6 @@ CLAIM = dict(
 def run(ctx: Ctx) -> None:
     resolve.f1_merge_stores(ctx)
     resolve.f1_resolver_coverage(ctx)
+    resolve.f1_resolver_operand(ctx)
     resolve.f2_concatenations(ctx)
     resolve.f3_resolver_shape(ctx)
